@@ -78,6 +78,8 @@ def families(tier, seed):
         shf = Shape(sys={k: 'bool' for k in ('i0', 'i1', 'o0', 'o1')}, name='2 in 2 out')
         out.append(dict(name=f'back-end sweep [{tag}] make_functions',
                         run=harness.sweep(cfn.h_make_functions, shf, dict(inputs=['i0', 'i1'], vrs=['o0', 'o1']), 'context', seed, 4 * ns, be), label='bounded'))
+    for be in ('cudd', 'autoref'):
+        out.append(dict(name=f'a refused declaration leaves the context unchanged [{be}]', run=hc.refused_declaration(be), label='bounded'))
     from contracts import gr1_monitor as gm
     for be in ('cudd', 'autoref'):
         out.append(dict(name=f'copied automaton keeps its own operator definitions [{be}]', run=hc.copy_isolation(be), label='bounded'))
